@@ -114,7 +114,7 @@ def bi_int(ex, args, kw):
         return str_to_number(ex, v, "int")
     if isinstance(v, NDArray) and v.ndim == 0:
         return bi_int(ex, [v.elem(())], kw)
-    raise SymRaise("TypeError", f"int() argument must be a string or a number, not {typetag(v)}")
+    raise program_type_error(v, f"int() argument must be a string or a number, not {typetag(v)}")
 
 
 @builtin("float")
@@ -126,7 +126,7 @@ def bi_float(ex, args, kw):
         return to_real(v)
     if isinstance(v, (str, SStr, bytes)):
         return str_to_number(ex, v, "f8")
-    raise SymRaise("TypeError", f"float() argument must be a string or a number, not {typetag(v)}")
+    raise program_type_error(v, f"float() argument must be a string or a number, not {typetag(v)}")
 
 
 @builtin("bool")
